@@ -106,7 +106,7 @@ func SplitLines(stream []byte, follow func(k int, size int64) bool) []WLine {
 			}
 			end := cur + i + 2
 			size, nonSync, binary, hdrLen, ok := literalSuffix(phys)
-			if ok && !inQuotedAtEnd(stream[ln.Start:cur+i]) {
+			if ok && !inQuotedAtEnd(phys) { // (a quoted string cannot span lines: only the text since the last literal payload counts)
 				lit := WLit{HdrStart: cur + i - hdrLen, Start: end, Size: size, NonSync: nonSync, Binary: binary}
 				has := true
 				if !nonSync && follow != nil {
